@@ -446,6 +446,22 @@ class ParserShapes:
         if k == 'un' and e['op'] == '!':
             a = self.la_cond(e['e'], st)
             return None if a is None else (a[1], a[0])
+        if k == 'paren':
+            return self.la_cond(e['e'], st)
+        if k == 'call' and e.get('obj') is None and e.get('ck') != 'operator' and len(e.get('args', [])) == 1 and is_la(strip_casts(e['args'][0])):
+            # an in-repo predicate over the look-ahead (e.g. "is this token in FIRST(P)?"): evaluated for every token kind
+            facts = getattr(self, 'facts', None)
+            g = facts.fn(e.get('callee'), optional=True) if facts is not None and e.get('callee') else None
+            if g is not None and g.get('body') is not None and len(g['params']) == 1:
+                from .enumeval import EnumEval
+                ee = EnumEval(facts, lambda x, env: False, lambda c: False)
+                t, f = set(), set()
+                for tok in self.ALL:
+                    v = ee._call_pred(g, g['params'][0]['d'], tok, 0)
+                    if v is None:
+                        return None
+                    (t if v else f).add(tok)
+                return (t, f)
         return None
 
     def assume(self, q, cond, pol, ctx):
